@@ -1131,6 +1131,17 @@ def oracle_from(rep, smi, variant, rd, m_ref):
         rep.counterexample(f'from-stereo-invented:{key}', 'the chython molecule has configuration labels the RDKit molecule has none for', inp,
                            [sorted(c_all - r_atoms), [sorted(x) for x in c_bonds - r_bonds]], 'none', 'label by label', replay_py=py_from(smi))
     ck.count('search-from:stereo elements carried', len(c_atoms & r_atoms) + len(c_bonds & r_bonds))
+    # labels only where the library itself sees a stereo element: resetting the marks must change nothing
+    try:
+        fx = m2.copy()
+        fx.fix_stereo()
+        after = ({n - 1 for n, a in fx.atoms() if a.stereo is not None}, {frozenset((n - 1, mm - 1)) for n, mm, bd in fx.bonds() if bd.stereo is not None})
+    except Exception:
+        after = None
+    if after is not None and after != (c_all, c_bonds):
+        rep.counterexample(f'from-stereo-not-reset:{key}', 'from_rdkit_molecule leaves configuration labels that fix_stereo() removes (labels on centres the library does not consider stereogenic)',
+                           inp, [sorted(c_all), [sorted(x) for x in c_bonds]], [sorted(after[0]), [sorted(x) for x in after[1]]], 'fix_stereo() is idempotent on the result',
+                           replay_py=py_from(smi))
     al = m_ref is not None and aligned(m_ref, rd)
     if al:
         # what chython itself holds when it reads the string decides which RDKit labels are expected to arrive
@@ -1459,6 +1470,18 @@ def search(ck, n_corpus, extra=()):
             import traceback
             ck.unchecked(f'search oracle crashed on {smi}', traceback.format_exc()[-1500:], [smi])
             ck.oblige('search oracles ran on every input', False, 'machinery', f'{smi}: {type(e).__name__}: {e}')
+            break
+    # hand-edited RDKit molecules (tags and labels where RDKit itself would not put them, unusual bond types): the result must
+    # still be a consistent chython molecule
+    for tag, rdm in rd_malformed():
+        if rdm is None:
+            continue
+        ck.case(('from-malformed', tag))
+        try:
+            oracle_from(rep, tag, 'hand-edited', rdm, None)
+        except Exception as e:
+            import traceback
+            ck.unchecked(f'search oracle crashed on {tag}', traceback.format_exc()[-1500:], [tag])
             break
     # one molecule written donor-first and metal-first: the bridge must give one RDKit molecule
     from chython.utils.rdkit import to_rdkit_molecule
